@@ -4,6 +4,7 @@ import (
 	"go/ast"
 	"go/token"
 	"go/types"
+	"strings"
 )
 
 // analyse computes, to a fixed point over the call graph: which functions may fail (index/slice
@@ -12,6 +13,10 @@ import (
 func (x *X) analyse() {
 	for _, fi := range x.funcs {
 		info := fi.pkg.TypesInfo
+		curPkgForEffects = fi.pkg.PkgPath
+		if strings.HasSuffix(fi.pkg.PkgPath, "/clients") {
+			fi.mayFail = true // pointer dereferences
+		}
 		ast.Inspect(fi.decl.Body, func(n ast.Node) bool {
 			switch n := n.(type) {
 			case *ast.CallExpr:
@@ -106,12 +111,17 @@ func rootVar(info *types.Info, e ast.Expr) *types.Var {
 		return rootVar(info, t.X)
 	case *ast.ParenExpr:
 		return rootVar(info, t.X)
+	case *ast.SelectorExpr:
+		if sel, ok := info.Selections[t]; ok && sel.Kind() == types.FieldVal {
+			return rootVar(info, t.X)
+		}
 	}
 	return nil
 }
 
 func (x *X) writesThrough(fi *FuncInfo, p *types.Var) bool {
 	info := fi.pkg.TypesInfo
+	curPkgForEffects = fi.pkg.PkgPath
 	found := false
 	ast.Inspect(fi.decl.Body, func(n ast.Node) bool {
 		switch n := n.(type) {
@@ -134,10 +144,16 @@ func (x *X) writesThrough(fi *FuncInfo, p *types.Var) bool {
 			if id, ok := n.Fun.(*ast.Ident); ok && id.Name == "copy" && len(n.Args) == 2 && rootVar(info, n.Args[0]) == p {
 				found = true
 			}
+			if id, ok := n.Fun.(*ast.Ident); ok && id.Name == "delete" && len(n.Args) == 2 && rootVar(info, n.Args[0]) == p {
+				found = true
+			}
 			if isPkgCall(info, n, "encoding/binary") && len(n.Args) == 2 && rootVar(info, n.Args[0]) == p {
 				found = true
 			}
 			if f := calleeFunc(info, n); f != nil {
+				if _, isEnv := effectOf(f); isEnv {
+					return true // a step of the layer below: it does not write through our variables
+				}
 				if ci := x.funcs[f]; ci != nil {
 					off := 0
 					if ci.obj.Type().(*types.Signature).Recv() != nil {
@@ -147,6 +163,11 @@ func (x *X) writesThrough(fi *FuncInfo, p *types.Var) bool {
 						ai := mi - off
 						if ai >= 0 && ai < len(n.Args) && rootVar(info, n.Args[ai]) == p {
 							found = true
+						}
+						if ai < 0 { // the callee writes through its receiver
+							if se, ok := n.Fun.(*ast.SelectorExpr); ok && rootVar(info, se.X) == p {
+								found = true
+							}
 						}
 					}
 				}
